@@ -4,6 +4,7 @@ package main
 // loops cut at headers, heaps versioned per block).
 
 import (
+	"hash/fnv"
 	"fmt"
 	"go/constant"
 	"go/token"
@@ -84,6 +85,7 @@ type Obligation struct {
 	Func   string
 	Pos    string
 	Detail string
+	Stable string // kind@<hash of the source line text>#k : survives insertions elsewhere in the function
 	// results
 	Status string // proved | failed | unknown
 	Solver string
@@ -135,6 +137,7 @@ type FnCtx struct {
 	notes       map[string]bool // abstractions encountered
 	kcount      map[string]int
 	callsiteHit map[int]bool
+	scount      map[string]int
 	dynCalls    int
 	boxes       map[Sort]bool
 	lits        map[string]string
@@ -244,6 +247,16 @@ func (c *FnCtx) oblige(kind, cond, detail string, pos token.Pos) *Obligation {
 	if pos.IsValid() {
 		p := c.E.Fset.Position(pos)
 		o.Pos = fmt.Sprintf("%s:%d", p.Filename, p.Line)
+		if txt := c.E.srcLine(p.Filename, p.Line); txt != "" {
+			h := fnv.New32a()
+			h.Write([]byte(txt))
+			key := fmt.Sprintf("%s@%06x", kind, h.Sum32()&0xffffff)
+			if c.scount == nil {
+				c.scount = map[string]int{}
+			}
+			c.scount[key]++
+			o.Stable = fmt.Sprintf("%s#%d", key, c.scount[key])
+		}
 	}
 	c.obls = append(c.obls, o)
 	return o
